@@ -24,8 +24,8 @@ import (
 func init() {
 	hx.Register(&hx.Prop{
 		ID: "C04",
-		Rule: "conforming base document (every container kind: components of 8 sections, 3 paths, operations, path-level and operation-level " +
-			"parameters by value and by $ref, request bodies, responses with headers/links/two media types, nested schemas with " +
+		Rule: "conforming base document (every container kind: components of 9 sections incl. callbacks, 4 paths, operations, path-level and operation-level " +
+			"parameters by value and by $ref, servers at root / path item / operation, request bodies with encoding objects and their headers, responses with headers/links/two media types, nested schemas with " +
 			"oneOf/anyOf/allOf/not/items/properties/additionalProperties, items without type) × every injected violation or benign twin applicable " +
 			"to the class of the site × every site of that class found by a typed walk of the document × option sets (default, each single option, " +
 			"allow-list, all; thorough: all 64); plus a seeded stream of 1–3 simultaneous injections with random option sets. " +
